@@ -389,6 +389,13 @@ def run(ctx) -> None:
     else:
         rep.hold("C11.R4", f, None, f"{sa.instance_attr} is only ever set on the bound copy created in __get__")
 
+    # a rejected class-level (unbound) use has no other effect: a multi-signal subscription that
+    # fails half-way undoes what it had subscribed (C10.R4)
+    from . import c10 as _c10
+    from .common import include_fn as _incfn
+
+    _incfn(ctx, lambda sub: _c10.run(sub, skip_includes=True), "C11.R4", only=("C10.R4",))
+
     # ---------------- R5 : event class check in dispatch
     d = sa.method("dispatch")
     dcfg = a.cfg(d)
@@ -424,6 +431,19 @@ def run(ctx) -> None:
             else:
                 rep.violate("C11.R6", f, ctxt[2], f"the owner instance escapes into {ctxt[1]}: a strong reference keeps it alive")
     rep.floor("C11.R6", uses, 3)
+    # ... nor does a cache of the dereferenced owner: a cached_property / lru_cache'd method of the
+    # signal that returns (something built from) `self._instance()` stores a strong reference in
+    # the bound signal - which is itself the value of the weak-keyed entry of that owner
+    for m_ in sa.Signal.methods.values():
+        if set(m_.decorators) & {"cached_property", "lru_cache", "cache"}:
+            derefs_ = [c_ for c_ in walk_own(m_.node) if isinstance(c_, ast.Call) and isinstance(c_.func, ast.Attribute) and c_.func.attr == sa.instance_attr]
+            rep.check("C11.R6", not derefs_, m_, derefs_[0] if derefs_ else m_.node, f"{m_.name} caches nothing that refers to the owner", f"`{m_.name}` is cached ({', '.join(m_.decorators)}) and evaluates `{ast.unparse(derefs_[0]) if derefs_ else ''}`: after its first use the bound signal holds a strong reference to its owner, and since the bound signal is the value stored under that owner in the weak-keyed table, neither is ever collected")
+    for g in ctx.p.all_functions():
+        if g.module is not sa.Signal.module or g.is_lambda:
+            continue
+        for st_ in walk_own(g.node):
+            if isinstance(st_, ast.Assign) and any(isinstance(t_, ast.Attribute) and isinstance(t_.value, ast.Name) and t_.value.id == "self" for t_ in st_.targets) and g.owner_class is sa.Signal and isinstance(st_.value, ast.Call) and isinstance(st_.value.func, ast.Attribute) and st_.value.func.attr == sa.instance_attr:
+                rep.violate("C11.R6", g, st_, f"`{ast.unparse(st_)}` stores the dereferenced owner on the signal: a strong reference keeps it alive")
     # ... nor does USING a bound signal: a local that holds the dereferenced owner
     # (`owner = self._instance()`) in a function that then suspends (a generator-based context
     # manager stays suspended for the whole subscription) pins the owner for that long
